@@ -351,3 +351,63 @@ func VerifH07e() {
 		}
 	}
 }
+
+// ---------------------------------------------------------------------------
+// H07r — a Parse always (re)defines its name (C07): Parse s1 "q"; Close
+// statement n; Parse s2 with the SAME query text; Describe statement s3; Bind
+// to s3. Whether the names coincide is the solver's choice. After the second
+// Parse its name resolves — whatever was parsed or closed before, and although
+// the text is byte-identical to an earlier Parse — and the parser was
+// consulted for it.
+// ---------------------------------------------------------------------------
+func VerifH07r() {
+	s1, n, s2, s3 := vSymName(), vSymName(), vSymName(), vSymName()
+	sync := vMsgBytes('S', nil)
+	parse := func(name []byte) []byte {
+		return vCat(vMsgBytes('P', vCat(vCStr(name), vCStr([]byte("q")), vU16(0))), sync)
+	}
+	input := vCat(parse(s1),
+		vMsgBytes('C', vCat([]byte{'S'}, vCStr(n))), sync,
+		parse(s2),
+		vMsgBytes('D', vCat([]byte{'S'}, vCStr(s3))), sync,
+		vMsgBytes('B', vCat(vCStr(nil), vCStr(s3), vU16(0), vU16(0), vU16(0))), sync)
+	w := vNewWorld(input, 64+4*vParam("LONGNAME", 0))
+	w.execMenu = 1
+	w.parseMenu = -1
+	step2 := func() string {
+		got, err := w.step()
+		vAssert("connection-stays-up", err == nil)
+		z, errZ := w.step()
+		vAssert("sync-ready", errZ == nil && z == "Z")
+		return got
+	}
+	vAssert("parse-1", step2() == "1")
+	first := w.lastParse[0]
+	vAssert("close-complete", step2() == "3")
+	parsesBefore := w.countEvents('p')
+	vAssert("parse-2", step2() == "1")
+	vAssert("second-parse-consults-the-parser", w.countEvents('p') == parsesBefore+1)
+	second := w.lastParse[0]
+	var want *vStmtInfo
+	switch {
+	case vEqBytes(s3, s2):
+		want = second
+	case vEqBytes(s3, s1) && !vEqBytes(n, s1):
+		want = first
+	}
+	got := step2()
+	if want != nil {
+		vAssert("describe-resolves-the-latest-definition", got == "t"+vDescOf(want))
+	} else {
+		vAssert("describe-unknown-is-error", got == "E")
+	}
+	got = step2()
+	if want != nil {
+		vAssert("bind-resolves-the-latest-definition", got == "2")
+	} else {
+		vAssert("bind-unknown-is-error", got == "E")
+	}
+	if vEqBytes(s1, s2) && vEqBytes(n, s1) && vEqBytes(s3, s1) {
+		vReach("reparsed-after-close-with-identical-text")
+	}
+}
